@@ -176,7 +176,7 @@ def run_shard(d):
                 ads1 = make(specs, rate, ovl)
                 ads2 = make([MENU[(i + 3) % len(MENU)] for i in combo], rate, ovl)
                 for which in ("both", "r1", "r2"):
-                    for action in ("trim", "lowercase", "none"):
+                    for action in ("trim", "lowercase", "mask", "none"):
                         act = None if action == "none" else action
                         c1 = AdapterCutter(ads1, times=1, action=act, index=False) if which in ("both", "r1") else None
                         c2 = AdapterCutter(ads2, times=1, action=act, index=False) if which in ("both", "r2") else None
@@ -190,8 +190,10 @@ def run_shard(d):
                                 return SequenceRecord("r", seq, q), []
                             return p.match_and_trim(SequenceRecord("r", seq, q))
 
-                        for a in menu:
-                            for b in menu[::3]:
+                        # every pair as given, and (every other R1) spelled in lower case: case is part of what is returned
+                        pairs = [(a, b) for a in menu for b in menu[::3]] + [(a.lower(), b.lower()) for a in menu[::2] for b in menu[::3]]
+                        for a, b in pairs:
+                            if True:
                                 res["evals"] += 1
                                 qa, qb = uq(len(a)), uq(len(b), 10)
                                 i1 = ModificationInfo(SequenceRecord("r", a, qa))
